@@ -8,4 +8,7 @@ MCTarget2 == [d \in MCDevs |-> IF d = "bd_plunger" THEN "pf" ELSE "bd_plunger"]
 \* third topology: as the second, but a one-slot launcher and the lock confirms its ejects by a switch on the way
 MCCap3 == [d \in MCDevs |-> IF d = "bd_trough" THEN 3 ELSE IF d = "bd_lock" THEN 2 ELSE 1]
 MCTarget3 == MCTarget2
+\* fourth topology: as the first, but the lock counts its balls by an entrance switch and holds them (ball_hold)
+MCCap4 == MCCap
+MCTarget4 == MCTarget
 =============================================================================
